@@ -1,6 +1,7 @@
 package props
 
 import (
+	"bytes"
 	"fmt"
 	"os"
 	"runtime"
@@ -18,7 +19,7 @@ import (
 func init() { register("C14", "exploration", runC14) }
 
 const (
-	c14AllocBound = 64 << 20 // per call; the largest schema-legal allocation (65535-element IE list) is ~15 MiB
+	c14AllocBound = 32 << 20 // per call: twice the largest schema-legal allocation (a 65535-element IE list, ~15 MiB)
 	c14Horizon    = 10 * time.Second
 	c14Batch      = 128
 )
@@ -61,6 +62,89 @@ func c14Seeds(s *refper.Schema, thorough bool) (seeds [][]byte, names []string) 
 	return
 }
 
+// c14rewrap: structure-preserving corruption. An NGAP PDU is choice(1) procedureCode(1) criticality(1) length value,
+// and the value of every message is preamble(1) ieCount(2) { id(2) criticality(1) length value }*. For every IE and
+// every position inside its value a run of adversarial octets is inserted and the two enclosing length determinants
+// are RE-COMPUTED, so that the inner decoder really reaches the run (a run inserted blindly is cut off by the
+// enclosing open-type length). Returns nil when the seed does not have that shape.
+func c14rewrap(seed []byte, runs []int, emit func([]byte)) {
+	det := func(b []byte) (n, w int, ok bool) { // general length determinant, unfragmented forms
+		if len(b) == 0 {
+			return 0, 0, false
+		}
+		if b[0] < 0x80 {
+			return int(b[0]), 1, true
+		}
+		if b[0] < 0xc0 && len(b) >= 2 {
+			return int(b[0]&0x3f)<<8 | int(b[1]), 2, true
+		}
+		return 0, 0, false
+	}
+	put := func(n int) []byte {
+		if n < 128 {
+			return []byte{byte(n)}
+		}
+		return []byte{0x80 | byte(n>>8), byte(n)}
+	}
+	if len(seed) < 8 {
+		return
+	}
+	l1, w1, ok := det(seed[3:])
+	if !ok || 3+w1+l1 != len(seed) || l1 < 3 {
+		return
+	}
+	body := seed[3+w1:]
+	type ie struct{ hdr, val []byte }
+	var ies []ie
+	p := 3
+	for p < len(body) {
+		if p+3 > len(body) {
+			return
+		}
+		li, wi, ok := det(body[p+3:])
+		if !ok || p+3+wi+li > len(body) {
+			return
+		}
+		ies = append(ies, ie{body[p : p+3], body[p+3+wi : p+3+wi+li]})
+		p += 3 + wi + li
+	}
+	for i := range ies {
+		for pos := 0; pos <= len(ies[i].val); pos++ {
+			for _, b := range []byte{0xc4, 0xc1, 0xff, 0x80} {
+				for _, n := range runs {
+					nv := make([]byte, 0, len(ies[i].val)+n)
+					nv = append(nv, ies[i].val[:pos]...)
+					nv = append(nv, bytes.Repeat([]byte{b}, n)...)
+					nv = append(nv, ies[i].val[pos:]...)
+					nb := append([]byte{}, body[:3]...)
+					for j := range ies {
+						v := ies[j].val
+						if j == i {
+							v = nv
+						}
+						if len(v) >= 16384 {
+							nb = nil
+							break
+						}
+						nb = append(nb, ies[j].hdr...)
+						nb = append(nb, put(len(v))...)
+						nb = append(nb, v...)
+					}
+					if nb == nil || len(nb) >= 16384 {
+						continue
+					}
+					m := append([]byte{}, seed[:3]...)
+					m = append(m, put(len(nb))...)
+					m = append(m, nb...)
+					if len(m) <= 4096 {
+						emit(m)
+					}
+				}
+			}
+		}
+	}
+}
+
 type c14state struct {
 	cur      atomic.Value // string: description of the input being decoded
 	start    atomic.Int64
@@ -79,11 +163,23 @@ func runC14(ctx *Ctx) {
 		maxLen = 3
 	}
 	seeds, names := c14Seeds(s, ctx.Thorough)
+	altSeeds := seeds // seeds incl. every CHOICE alternative / IE selection: used by the structure-preserving corruptions in both tiers
+	if !ctx.Thorough {
+		altSeeds, _ = c14Seeds(s, true)
+	}
+	rewrapRuns := []int{8, 64}
+	if ctx.Thorough {
+		rewrapRuns = []int{2, 8, 64, 1000}
+	}
+	runLens := []int{6, 48, 200}
+	if ctx.Thorough {
+		runLens = []int{2, 3, 6, 12, 48, 200, 1000, 3900}
+	}
 	pairAlphabet, maxGap := []byte{0x00, 0x7f, 0x80, 0xc1, 0xff}, 3
 	if ctx.Thorough {
 		pairAlphabet, maxGap = []byte{0x00, 0x01, 0x7f, 0x80, 0x81, 0xbf, 0xc0, 0xc1, 0xc4, 0xc5, 0xfe, 0xff}, 6
 	}
-	r.Rule = fmt.Sprintf("(a) every octet string of length 0..%d; (b) for each of %d seeds (reference encodings of every message type%s): every prefix, every single-octet substitution (len x 255), every single-bit flip, every 2-octet length form {8000,bfff,c4ff,ffff} at every position, every pair of octets up to %d positions apart replaced by every pair from a %d-value adversarial alphabet (unknown identifiers x fragmented / overlong / zero length determinants)%s; "+
+	r.Rule = fmt.Sprintf("(a) every octet string of length 0..%d; (b) for each of %d seeds (reference encodings of every message type%s): every prefix, every single-octet substitution (len x 255), every single-bit flip, every 2-octet length form {8000,bfff,c4ff,ffff} at every position, runs of 6..200 (thorough: 2..3900) octets c4 / c1 / ff / 80 inserted at every position, the same runs (8 and 64 octets; thorough 2..1000) inserted at every position inside every IE value of every message and CHOICE alternative with the two enclosing length determinants re-computed, every pair of octets up to %d positions apart replaced by every pair from a %d-value adversarial alphabet (unknown identifiers x fragmented / overlong / zero length determinants)%s; "+
 		"oracle: ngap.Decoder returns (value|error) - no panic, per-call allocation <= %d MiB (schema-legal maximum is ~15 MiB for a 65535-element IE list), per-call CPU time below a %v horizon; each input is decoded in a shard process with an address-space limit; distinct = distinct inputs (hashed); non-trivial = all",
 		maxLen, len(seeds), map[bool]string{true: " and of every value one CHOICE alternative / IE selection away", false: ""}[ctx.Thorough], maxGap, len(pairAlphabet),
 		map[bool]string{true: ", every pair of bit flips in the first 24 octets", false: ""}[ctx.Thorough], c14AllocBound>>20, c14Horizon)
@@ -205,6 +301,21 @@ func runC14(ctx *Ctx) {
 				}
 			}
 		}
+		// runs of adversarial octets inserted at every position (a determinant that is read in a loop - fragments, counts
+		// that add up - needs many of them in a row before an allocation or a running time gets out of proportion)
+		for pos := 0; pos <= len(seed); pos++ {
+			for _, b := range []byte{0xc4, 0xc1, 0xff, 0x80} {
+				for _, n := range runLens {
+					m := make([]byte, 0, len(seed)+n)
+					m = append(m, seed[:pos]...)
+					m = append(m, bytes.Repeat([]byte{b}, n)...)
+					m = append(m, seed[pos:]...)
+					if len(m) <= 4096 {
+						feed(m)
+					}
+				}
+			}
+		}
 		// pairs of adversarial octets a short distance apart (an identifier / choice / count octet made unknown AND the
 		// length determinant next to it made adversarial: faults that need two fields wrong at once)
 		for pos := range seed {
@@ -235,6 +346,10 @@ func runC14(ctx *Ctx) {
 				}
 			}
 		}
+	}
+	// (c) structure-preserving runs inside every IE value, enclosing lengths re-computed
+	for _, seed := range altSeeds {
+		c14rewrap(seed, rewrapRuns, feed)
 	}
 	runBatch()
 }
